@@ -45,7 +45,8 @@ def install():
         if not symbuf and not symoff:
             with NoTracing():
                 return struct.unpack_from(fmt_arg, buffer, offset)
-        offset = ops.index(offset)
+        if not symoff:
+            offset = ops.index(offset)
         n = len(buffer)
         if offset < 0:
             offset = offset + n
@@ -105,6 +106,38 @@ def install():
         return to_bytes(as_int, length, byteorder, signed=signed)
 
     bl.SymbolicBool.to_bytes = _bool_to_bytes
+
+    # ---------------------------------------------------------------- 7
+    # Slicing a symbolic byte string (concrete length) with a symbolic bound: CrossHair
+    # realises the bound value by value (2^32 paths for a lying length field). Clamp it
+    # to 0..len first: at most len+2 paths per bound.
+    _orig_getitem = SymbolicBytes.__getitem__
+
+    def _clamp(v, n):
+        with NoTracing():
+            sym = isinstance(v, SymbolicInt)
+        if not sym:
+            return v
+        if v < 0:
+            v = v + n
+            if v < 0:
+                return 0
+        if v >= n:
+            return n
+        return ops.index(v)     # 0 <= v < n here: realisation forks over at most n values
+
+    def _getitem(self, i):
+        if isinstance(i, slice) and i.step is None:
+            with NoTracing():
+                inner = self.inner
+                plain = isinstance(inner, list) and (
+                    isinstance(i.start, SymbolicInt) or isinstance(i.stop, SymbolicInt))
+            if plain:
+                n = len(inner)
+                i = slice(_clamp(i.start, n), _clamp(i.stop, n))
+        return _orig_getitem(self, i)
+
+    SymbolicBytes.__getitem__ = _getitem
 
     # ---------------------------------------------------------------- 6
     # bytes.split(sep) on a symbolic byte string with a concrete separator: CrossHair
